@@ -28,3 +28,45 @@ func LoadPrograms(path string) ([]*Program, error) {
 	}
 	return res, sc.Err()
 }
+
+// RunParams are the runner settings a failing program was found with.
+type RunParams struct {
+	Mode       string `json:"mode"`
+	Seed       int64  `json:"seed"`
+	Depth      int    `json:"depth"`
+	Twice      bool   `json:"twice"`
+	PLimit     int    `json:"plimit"`
+	OnlyClosed bool   `json:"onlyclosed"`
+}
+
+// RegressItem is a program plus runner settings.
+type RegressItem struct {
+	Prog *Program  `json:"prog"`
+	Run  RunParams `json:"run"`
+}
+
+// LoadRegress reads regression items, one per line.
+func LoadRegress(path string) ([]*RegressItem, error) {
+	f, err := os.Open(path)
+	if err != nil {
+		return nil, err
+	}
+	defer f.Close()
+	var res []*RegressItem
+	sc := bufio.NewScanner(f)
+	sc.Buffer(make([]byte, 1<<20), 1<<26)
+	for sc.Scan() {
+		if len(sc.Bytes()) == 0 {
+			continue
+		}
+		it := &RegressItem{}
+		if err := json.Unmarshal(sc.Bytes(), it); err != nil {
+			return nil, err
+		}
+		if it.Run.PLimit == 0 {
+			it.Run.PLimit = 48
+		}
+		res = append(res, it)
+	}
+	return res, sc.Err()
+}
